@@ -67,6 +67,7 @@ pub fn gen_number(rng: &mut Rng, floats: bool) -> String {
             format!("{}", rng.next() as i64 >> rng.below(64))
         }
         7 => format!("{}", rng.next() >> rng.below(64)),
+        8 if floats && rng.chance(1, 2) => boundary_number(rng),
         _ => {
             if !floats {
                 return format!("{}", rng.below(1000));
@@ -108,12 +109,77 @@ pub fn gen_number(rng: &mut Rng, floats: bool) -> String {
     }
 }
 
+/// Float literals at the edges of the fast paths: 15-17 digit significands around 2^53 with a small
+/// exponent, and 17-19 digit significands with an exponent near the overflow / underflow limits.
+pub fn boundary_number(rng: &mut Rng) -> String {
+    let mut digs = |rng: &mut Rng, n: usize| -> String { (0..n).map(|_| (b'0' + rng.below(10) as u8) as char).collect() };
+    let neg = if rng.chance(1, 4) { "-" } else { "" };
+    if rng.chance(2, 3) {
+        let n = 15 + rng.below(3);
+        let lead = *rng.pick(&["9", "90", "9007199254740", "8", "1", "4"]);
+        let m = format!("{}{}", lead, digs(rng, n - lead.len()));
+        let k = 1 + rng.below(n - 1);
+        match rng.below(3) {
+            0 => format!("{neg}{}.{}", &m[..k], &m[k..]),
+            1 => format!("{neg}{m}e{}", rng.below(62) as i64 - 24),
+            _ => format!("{neg}0.{}{m}", "0".repeat(rng.below(6))),
+        }
+    } else {
+        let n = 17 + rng.below(3);
+        let lead = *rng.pick(&["17976931348623157", "17976931348623158", "18", "9", "2", "1"]);
+        let m = format!("{}{}", lead, digs(rng, n - lead.len()));
+        let e = if rng.chance(1, 2) { 308 - (n as i64 - 1) + rng.below(3) as i64 - 2 } else { -(300 + rng.below(30) as i64) - (n as i64 - 1) };
+        let s = format!("{neg}{m}e{e}");
+        // documents built from these literals must stay acceptable: keep only finite values here (the
+        // literals beyond the overflow limit are exercised by the number suites themselves)
+        if s.parse::<f64>().map(|x| x.is_finite()).unwrap_or(false) {
+            s
+        } else {
+            format!("{neg}{m}e{}", e - 3)
+        }
+    }
+}
+
 const PLAIN: &[u8] = b"abcdefghijklmnopqrstuvwxyzABCDEFGHIJKLMNOPQRSTUVWXYZ0123456789 _-.:,[]{}/'";
 const MULTI: &[&str] = &["\u{e9}", "\u{df}", "\u{4e2d}", "\u{6587}", "\u{20ac}", "\u{1F600}", "\u{10FFFF}", "\u{7ff}", "\u{800}", "\u{ffff}", "\u{10000}", "\u{fffd}"];
 
 /// A string value: (decoded text, literal with quotes). `len_hint` steers the raw length so that
 /// literals cross 32- and 64-byte block edges.
+/// A string whose escape sequence straddles a 32-byte block boundary of the scanners: `pad` ordinary
+/// bytes, an escape, then a tail long enough for another full block, with structural bytes in it so
+/// that a scanner which loses the escape state across the boundary visibly mis-delimits the literal.
+pub fn boundary_string(rng: &mut Rng) -> (String, String) {
+    let pad = if rng.chance(1, 2) { 31 + 32 * rng.below(4) } else { rng.below(130) };
+    let mut dec = String::new();
+    let mut lit = String::from("\"");
+    for _ in 0..pad {
+        let c = *rng.pick(PLAIN) as char;
+        dec.push(c);
+        lit.push(c);
+    }
+    let reps = 1 + rng.below(2);
+    for _ in 0..reps {
+        let (e, d) = *rng.pick(&[("\\\"", "\""), ("\\\\", "\\"), ("\\\\\\\"", "\\\""), ("\\n", "\n"), ("\\u0022", "\""), ("\\u005c", "\\")]);
+        dec.push_str(d);
+        lit.push_str(e);
+    }
+    let tail = *rng.pick(&[",3,", "],[", "}:{", ": 1, ", ""]);
+    dec.push_str(tail);
+    lit.push_str(tail);
+    let more = rng.range(30, 75);
+    for _ in 0..more {
+        let c = *rng.pick(PLAIN) as char;
+        dec.push(c);
+        lit.push(c);
+    }
+    lit.push('"');
+    (dec, lit)
+}
+
 pub fn gen_string(rng: &mut Rng, long: bool) -> (String, String) {
+    if long && rng.chance(1, 12) {
+        return boundary_string(rng);
+    }
     let target = match rng.below(12) {
         0 => 0,
         1..=5 => rng.below(8),
